@@ -263,18 +263,21 @@ def plan_token_tests(alphabet, nodes, cut_tests, cut_sample=None):
     tests, seen = [], set()
     nocomp = 0
 
+    region = [""]
+
     def add(steps, what):
         toks = [t for t, _ in steps]
         key = tuple(toks)
         if key in seen:
             return
         seen.add(key)
-        tests.append({"toks": toks, "steps": steps, "what": what})
+        tests.append({"toks": toks, "steps": steps, "what": what, "region": region[0]})
 
     for n in nodes:
         if n["soft"] != 0:
             continue
         c = n["c"]
+        region[0] = n["region"]
         pre = [(h["t"], h["c"]) for h in n["hist"]]
         own = path(ckey(c, 0))
         if own is None:
@@ -445,6 +448,7 @@ RAW_CLASSES = [(r"cannot use .* constant\) as .* value in (assignment|constant d
                (r"constant .* overflows|truncated", "literal-type-mismatch"),
                (r"invalid map key type", "container-as-map-key"),
                (r"invalid array length", "array-length-negative"),
+               (r"redeclared|duplicate (field|method|case)|already declared", "duplicate-identifier"),
                (r"cannot use st\.\w+ \(variable of type \[\d+\]u?int8\)", "fixed-array-of-bytes")]
 
 
@@ -515,7 +519,7 @@ def clause2(ctx, exe):
     # quick tier: "prefix + non-viable token + end of input" for a seeded part of the pairs (every pair is still run with
     # the prefix's completion after the token, and every prefix with end of input right after it)
     crng = random.Random(ctx.seed * 31 + 5)
-    tests, nocomp = plan_token_tests(alphabet, nodes, cut_tests=True, cut_sample=(lambda c, t: crng.random() < 0.08) if ctx.quick else None)
+    tests, nocomp = plan_token_tests(alphabet, nodes, cut_tests=True, cut_sample=(lambda c, t: crng.random() < 0.05) if ctx.quick else None)
     nconf = len([n for n in nodes if n["soft"] == 0])
     ntrans = sum(len(n["trans"]) for n in nodes if n["soft"] == 0)
     gen_states, gen_trans = rgen.distinct, rgen.generated
@@ -553,7 +557,7 @@ def clause2(ctx, exe):
     ctx.log("clause 2: compiled %d distinct outputs in %.1fs" % (nrep, time.time() - t0))
     orecs = [{"id": r["id"], "cls": r["cls"], "toks": r["toks"], "rc": results[r["id"]]["rc"], "timeout": results[r["id"]]["timeout"],
               "compiled": results[r["id"]]["compiled"]} for r in recs]
-    bad, lenient, tot = judge_tokens(ctx, orecs, "tokoracle", shards=ctx.pick(8, 12))
+    bad, lenient, tot = judge_tokens(ctx, orecs, "tokoracle", shards=ctx.pick(4, 8))
     report_bad(ctx, bad, recs, results, inputs)
     # lenient acceptances: observations, grouped by context
     len_classes, len_examples = {}, {}
@@ -581,11 +585,18 @@ def clause2(ctx, exe):
     by_what = {}
     for r in recs:
         by_what[r["what"]] = by_what.get(r["what"], 0) + 1
+    # end of input at every configuration, by construct: how many runs, how many never ended
+    eof_by_region = {}
+    for i, t in enumerate(tests):
+        if t["what"] == "eof":
+            e = eof_by_region.setdefault(t["region"], {"runs": 0, "hangs": 0})
+            e["runs"] += 1
+            e["hangs"] += 1 if orecs[i]["timeout"] else 0
     ex = next((t for t in tests if t["what"] == "viable" and len(t["toks"]) > 12), tests[0])
     ok_texts = [t["text"] for i, t in enumerate(tests) if t["what"] == "viable" and i not in bad and orecs[i]["rc"] == 0]
     ev = {
         "configurations": nconf, "transitions_of_automaton": ntrans, "prefixes_enumerated": nprefix, "stack_depth": depth,
-        "token_tests": len(tests), "tests_by_kind": by_what,
+        "token_tests": len(tests), "tests_by_kind": by_what, "end_of_input_by_construct": eof_by_region,
         "runs": len(inputs), "in_language": tot["nvalid"], "accepted_outputs_compiled": nrep,
         "lenient_acceptances": sum(len_classes.values()), "lenient_classes": dict(sorted(len_classes.items(), key=lambda x: -x[1])),
         "lenient_examples": len_examples,
@@ -597,32 +608,42 @@ def clause2(ctx, exe):
     return ev, ok_texts
 
 
-def clause2_raw(ctx, exe, corpus):
+def clause2_raw(ctx, exe, corpus, kinds, nraw, tag):
     """Inputs without a reference class: random bytes, token soup, valid programs cut or with characters / tokens changed.
     Judged by the same oracle (class "raw"): the binary terminates, and exit 0 comes with output that compiles."""
     h = gobuild.stage_harness(ctx)
-    rng = random.Random(ctx.seed * 7919 + 16)
-    nraw = ctx.pick(2000, 100000)
+    rng = random.Random(ctx.seed * 7919 + 16 + len(tag))
     inputs, recs = [], []
-    for j, (cls, data) in enumerate(idlgen.raw_inputs(rng, nraw, corpus)):
-        tid = "r%06d" % j
+    for j, (cls, data) in enumerate(idlgen.raw_inputs(rng, nraw, corpus, kinds)):
+        tid = "%s%06d" % (tag, j)
         inputs.append((tid, data))
         recs.append({"id": tid, "cls": "raw", "toks": [], "what": cls, "_data": data})
     t0 = time.time()
-    results = run_inputs(ctx, exe, h, inputs, "tokidl", "raw", 5, tag="raw")
-    nto = settle_timeouts(ctx, exe, h, inputs, results, "tokidl", "raw")
-    nrep = compile_outputs(ctx, h, "raw", results)
-    ctx.log("clause 2: %d raw inputs run and %d distinct outputs compiled in %.1fs" % (nraw, nrep, time.time() - t0))
+    # in chunks: on a tree where whole classes of input hang, every hang costs 5 s of a core; once 150 runs have timed out
+    # the classes are known and the rest of the corpus is dropped (recorded in the evidence)
+    results, done, chunk = {}, 0, 10000
+    while done < len(inputs):
+        part = inputs[done:done + chunk]
+        r = run_inputs(ctx, exe, h, part, "tokidl", "raw" + tag, 5, tag="raw%d" % done)
+        settle_timeouts(ctx, exe, h, part, r, "tokidl", "raw" + tag)
+        results.update(r)
+        done += len(part)
+        if sum(1 for x in results.values() if x["timeout"]) > 150:
+            break
+    truncated = len(inputs) - done
+    inputs, recs, nraw = inputs[:done], recs[:done], done
+    nrep = compile_outputs(ctx, h, "raw" + tag, results)
+    ctx.log("clause 2: %d raw inputs (%s) run and %d distinct outputs compiled in %.1fs" % (nraw, "/".join(kinds), nrep, time.time() - t0))
     orecs = [{"id": r["id"], "cls": "raw", "toks": [], "rc": results[r["id"]]["rc"], "timeout": results[r["id"]]["timeout"],
               "compiled": results[r["id"]]["compiled"]} for r in recs]
-    bad, _, tot = judge_tokens(ctx, orecs, "raworacle", shards=ctx.pick(2, 8))
+    bad, _, tot = judge_tokens(ctx, orecs, "raworacle" + tag, shards=ctx.pick(2, 6))
     report_bad(ctx, bad, recs, results, inputs)
     by_what, acc = {}, {}
     for r in recs:
         by_what[r["what"]] = by_what.get(r["what"], 0) + 1
         if results[r["id"]]["rc"] == 0:
             acc[r["what"]] = acc.get(r["what"], 0) + 1
-    return {"raw_inputs": nraw, "by_kind": by_what, "exit_0_by_kind": acc, "corpus_texts": len(corpus), "accepted_outputs_compiled": nrep,
+    return {"raw_inputs": nraw, "dropped_after_150_timeouts": truncated, "by_kind": by_what, "exit_0_by_kind": acc, "corpus_texts": len(corpus), "accepted_outputs_compiled": nrep,
             "rejected_by_oracle": len(bad), "oracle_states": tot["states"], "oracle_transitions": tot["generated"]}
 
 
@@ -876,8 +897,8 @@ class Batch:
 
         # ---- the generated codecs against the IDL's meaning
         drv = gobuild.build(b, "codecdrive")
-        nsh = 6
-        d, last = codecfam.run_driver(b, drv, "structs", "enc", ["-shards", str(nsh), "-per", str(ctx.pick(6, 25))])
+        nsh = ctx.pick(4, 6)
+        d, last = codecfam.run_driver(b, drv, "structs", "enc", ["-shards", str(nsh), "-per", str(ctx.pick(6, 20))])
         n_enc = int(last.split()[0])
         shards = sorted(glob.glob(os.path.join(d, "enc_*.ndjson")))
         extra = {"schemas.json": codecgen.schemas_json(schema)}
@@ -890,8 +911,8 @@ class Batch:
             ctx.violate("C16:generated-codec:%s:%s" % (kind, r["k"]),
                         "generated codec of %s: encoding is not the well-formed encoding of the value, or the generated decoder does not "
                         "return it (%s)" % (r["s"], kind), {"record": r, "struct": struct_shape(schema, r["s"]), "idl": self.idl_of(r["s"])})
-        d2, last2 = codecfam.run_driver(b, drv, "mutants", "mut", ["-shards", str(nsh), "-per", str(ctx.pick(1, 3)),
-                                                                    "-classes", "extra,absent,prefix,inflate,subst", "-cap", str(ctx.pick(3, 6))])
+        d2, last2 = codecfam.run_driver(b, drv, "mutants", "mut", ["-shards", str(nsh), "-per", str(ctx.pick(1, 2)),
+                                                                    "-classes", "extra,absent,prefix,inflate,subst", "-cap", str(ctx.pick(3, 4))])
         mshards = sorted(glob.glob(os.path.join(d2, "mut_*.ndjson")))
         total, bad, states, gen = codecfam.judge_dec(b, schema, mshards, "dec%d" % self.bi, par=nsh)
         known_seen = {}
@@ -910,12 +931,22 @@ class Batch:
                 raise Inconclusive("reference decoder disagrees with the value the harness built (%s %s)" % (r["cls"], r["s"]))
             sigs = codec_signatures(why, r, schema)
             hit = [x for x in sigs if x in known_codec_open()]
-            if hit or why == "alloc" or (why == "panic" and codecfam.panic_class(r["panic"]) == "out-of-memory"):
+            # a length field blown up to 2^31-1 makes the generated decoder allocate / loop for that many elements (the recorded
+            # C05 allocation finding); on a loaded machine the driver's worker then times out instead of dying of memory
+            slow_alloc = why == "panic" and r["cls"] == "inflate" and codecfam.panic_class(r["panic"]) in ("out-of-memory", "hang")
+            if hit or why == "alloc" or slow_alloc or (why == "panic" and codecfam.panic_class(r["panic"]) == "out-of-memory"):
                 key = hit[0] if hit else "C05:allocation"
                 known_seen[key] = known_seen.get(key, 0) + 1
                 continue
             if r["k"] == "decr" and not r.get("fok"):
                 continue        # the fresh decode of the same bytes is judged by its own record
+            if why == "wrong-value" and r["cls"] == "subst" and r.get("note", "").endswith("->FLOAT") and has_nan(r["dec"]):
+                # a float32 NaN with a payload read into a double member: the runtime widens it as IEEE 754 says; the shared
+                # reference (spec/TarsSchema) does not model NaN payloads under widening.  Not the generator's business.
+                ev["observations_nan_widening"] = ev.get("observations_nan_widening", 0) + 1
+                continue
+            if why == "panic":
+                why = "panic-" + codecfam.panic_class(r["panic"])
             ctx.violate("C16:generated-codec:%s:%s%s%s" % (why, r["cls"], (":" + r["note"]) if r.get("note") else "", ":reused" if r["k"] == "decr" else ""),
                         "%s input for generated struct %s (%s): real decoder %s, reference: %s"
                         % (r["cls"], r["s"], r.get("note", ""), "ok" if r["ok"] else "error/panic " + r["panic"][:80], why),
@@ -981,6 +1012,15 @@ class Batch:
 
 def batch(ctx, exe, bi, progs, flags, seed):
     return Batch(ctx, exe, bi, progs, flags, seed).run()
+
+
+def has_nan(v):
+    """any 8-byte big-endian value in a canonical value tree that is a float64 NaN"""
+    if isinstance(v, list):
+        if len(v) == 8 and all(isinstance(x, int) for x in v):
+            return (v[0] & 0x7f) == 0x7f and (v[1] & 0xf0) == 0xf0 and any(v[2:] + [v[1] & 0x0f])
+        return any(has_nan(x) for x in v)
+    return False
 
 
 def struct_deps(schema, q, seen=None):
@@ -1060,6 +1100,15 @@ def run(ctx):
         "operational reading of 'terminates with a diagnostic': within 5 s (10 s for valid programs), and exit 0 only with output that compiles",
     ]
     exe = gobuild.build_tars2go(ctx)
+    # the clauses run in threads: serialise the bookkeeping of violations
+    import threading
+    lock, plain_violate = threading.Lock(), ctx.violate
+
+    def violate(*a, **k):
+        with lock:
+            plain_violate(*a, **k)
+
+    ctx.violate = violate
     pool = ThreadPoolExecutor(max_workers=6)
     fmc = pool.submit(tlc.run, ctx, SPEC, "MC_IdlGrammar", cfg="MC_IdlGrammar.cfg", workers=1, timeout=600, name="mc-grammar")
     fmc2 = pool.submit(tlc.run, ctx, SPEC, "IdlPrograms", cfg="MC_IdlPrograms.cfg", workers=2, timeout=800, name="mc-programs")
@@ -1071,8 +1120,10 @@ def run(ctx):
     progs, sim_states = sample_programs(ctx, nprog, ctx.seed, ctx.pick(2, 3))
     flagsets = [[], makefile_flags()[:2] + ["-json-omitempty"]]     # the default flags / the flags the framework's own Makefile uses
     per = (nprog + nb - 1) // nb
-    fb = [pool.submit(batch, ctx, exe, bi + 1, progs[bi * per:(bi + 1) * per], flagsets[bi % 2], ctx.seed) for bi in range(nb)]
+    bpool = ThreadPoolExecutor(max_workers=2)        # at most two batches (builds, drivers, oracle JVMs) at a time
+    fb = [bpool.submit(batch, ctx, exe, bi + 1, progs[bi * per:(bi + 1) * per], flagsets[bi % 2], ctx.seed) for bi in range(nb)]
     f2 = pool.submit(clause2, ctx, exe)
+    fraw1 = pool.submit(clause2_raw, ctx, exe, [], ["random-bytes", "token-soup"], ctx.pick(1000, 50000), "n")
 
     c3 = f3.result()
     bevs, bres = [], []
@@ -1087,9 +1138,10 @@ def run(ctx):
     # raw inputs: mutation corpus = programs that went through generator and compiler (module A files stand alone) and the
     # accepted token-level programs
     corpus = [t for br in bres for t in br["texts"]][:60] + tok_texts[:: max(1, len(tok_texts) // 150)]
-    fraw = pool.submit(clause2_raw, ctx, exe, corpus)
+    fraw = pool.submit(clause2_raw, ctx, exe, corpus, ["valid-cut", "valid-mutated"], ctx.pick(800, 50000), "m")
     st_schema = schema_selftest(ctx, bres[0]) if bres else {"skipped": "every sampled program was rejected or did not compile; violations are reported"}
-    craw = fraw.result()
+    craw, craw1 = fraw.result(), fraw1.result()
+    craw = {k: (craw[k] + craw1[k] if isinstance(craw[k], int) else dict(craw[k], **craw1[k]) if isinstance(craw[k], dict) else craw[k]) for k in craw}
     rmc = tlc.require_clean(fmc.result(), "MC_IdlGrammar")
     rmc2 = tlc.require_clean(fmc2.result(), "MC_IdlPrograms")
     judged = sum(e.get("programs_judged", 0) for e in bevs)
